@@ -452,6 +452,9 @@ def stream_collections(ctx, drv, n):
                 fixed.append((tw, [[names_tw[-1]], [names_tw[0]], names_tw[1:]]))
     except Exception as e:  # noqa
         ctx.notes.append(f"c02.gen_twins not usable for the C03 collections: {type(e).__name__}: {e}")
+    fixed.append(({"a.py": "x = 1\n", "big.py": "x = 0x" + "f" * 6000 + "\n", "c.py": "import a\ny = 2\n",
+                   "chain.py": "if a == 0:\n    pass\n" + "".join(f"elif a == {i}:\n    pass\n" for i in range(1, 1500))},
+                  [["a.py", "c.py"], ["big.py"], ["chain.py", "a.py"]]))
     fixed.append(({"a.py": TEXTS[23], "b.py": "import a\n" + TEXTS[24], "c.py": "import b\nx = 1\n"},
                   [["a.py"], ["a.py", "b.py"], ["b.py", "c.py"]]))
     for ci in range(n + len(fixed)):
